@@ -283,6 +283,14 @@ def stable_fixed_point(family, y, e, init, labels, proto_y, proto_e, iterations)
 
 
 @oracle
+def heavy_blur_fixed_point(family, y, e, init, labels, proto_y, proto_e, iterations):
+    """the same statement for start values blurred by MORE than one half (true class still the largest, e.g. 0.36 vs 0.21
+    for K = 4): inside the literal quantifier, but EM itself leaves the true partition there on the unchanged code
+    (recorded known finding, replayed from corpus/); the search judges blur weights <= 0.5"""
+    return _fixed_point(family, y, e, init, labels, proto_y, proto_e, iterations)
+
+
+@oracle
 def noise_free_fixed_point(family, y, e, init, labels, proto_y, proto_e, iterations):
     """the same statement on scenes with perturbation level exactly 0 (own oracle name = own finding key)"""
     return _fixed_point(family, y, e, init, labels, proto_y, proto_e, iterations)
@@ -298,6 +306,21 @@ def _fixed_point(family, y, e, init, labels, proto_y, proto_e, iterations):
         if eu.is_singular_covariance_rejection(ex):
             return Skip('sklearn rejected a numerically singular class covariance (explicit rejection)')
         raise
+    # the trainer's own fit_predict entry point (the property's observation point) must rank the same way
+    try:
+        post_fp = np.asarray(fam.fit_predict(data, init, iterations, {}))
+    except ValueError as ex:
+        if eu.is_singular_covariance_rejection(ex):
+            return Skip('sklearn rejected a numerically singular class covariance (explicit rejection)')
+        raise
+    if post_fp.shape != post.shape or not np.array_equal(np.argmax(post_fp, axis=-2), np.argmax(post, axis=-2)):
+        conc = float(np.max(np.abs(model.complex_bingham.covariance_eigenvalues))) if family == 'cbmm' else 0.0
+        if not (family == 'cbmm' and conc > CBMM_ILL_CONDITIONED):
+            nbad = int(np.sum(np.argmax(post_fp, axis=-2) != labels)) if post_fp.shape == post.shape else -1
+            return Fail(f'fit-predict-ranks-differently:{family}',
+                        f'{family}: fit_predict(...) and fit(...).predict(...) disagree on the maximum-posterior class '
+                        f'({nbad} of {labels.size} observations of fit_predict are off their true class; shapes '
+                        f'{post_fp.shape} / {post.shape})')
     if not np.all(np.isfinite(post)):
         return Fail(f'posterior-not-finite:{family}', f'{family}: posterior contains non-finite values after '
                     f'{iterations} iterations')
@@ -400,8 +423,28 @@ def case_for(family, sc, meta):
 SEVEN = ['cacgmm', 'cwmm', 'cbmm', 'gmm-full', 'vmfmm', 'gcacgmm-spherical', 'vmfcacgmm']
 
 
+def _warm_up(ctx, rng):
+    """process history: every family is first fitted on a small-dimension scene (K = 2, D = E = 2), so that anything a
+    trainer keeps between fits (tables cached per process, class-level state) comes from ANOTHER dimension when the scenes
+    of the stated domain follow"""
+    K, D = 2, 2
+    T = 16
+    labels = np.array([[0, 1] * (T // 2)])
+    proto_y = eu.prototypes(rng, K, D, 0.0, True)[0][None]
+    proto_e = eu.prototypes(rng, K, D, 0.0, False)[0]
+    y = np.take_along_axis(proto_y, labels[..., None], axis=1) + 1e-3 * np.sqrt(2) * eu.cnormal(rng, 1, T, D)
+    e = proto_e[labels] + 1e-3 * rng.normal(size=(1, T, D))
+    truth = np.moveaxis(np.eye(K)[labels], -1, -2)
+    sc = dict(y=y, e=e, eg=e, init=0.9 * truth + 0.05, labels=labels, proto_y=proto_y, proto_e=proto_e)
+    meta = dict(iterations=3, level=1e-3, D=D)
+    for family in SEVEN:
+        ctx.count('warm-up-small-dimension')
+        ctx.run(stable_fixed_point, **case_for(family, sc, meta))
+
+
 def search(ctx):
     rng = ctx.rng
+    _warm_up(ctx, rng)
     n = ctx.n(120, 3000)
     for i in range(n):
         if ctx.out_of_time(15):
